@@ -24,7 +24,7 @@ is consistent with the whole history, which is what the theorems quantify over.
   plant <chain> <pktid>                                       -> ok <delta>     (commitment injected with the keeper setter)
   recv <chain> <now> <pktid> <proofid> <truth> <rev> <h> <signer> <cb>                        -> ok|err <delta> S=<ackStatus>
   ackm <chain> <now> <pktid> <ackid> <proofid> <truth> <rev> <h> <signer> <evm>               -> ok|err <delta> S=<ackStatus>
-  update <chain> <now> <client> <rev> <h> <root> <signer> <ok> -> ok|err L=<rev>-<h>
+  update <chain> <now> <client> <rev> <h> <root> <signer> <ok> -> ok|err L=<rev>-<h> V=<stored verifier: TSS address | root at that height>
   dump <chain>                                                -> full sorted dump of the four packet stores
   debug <0|1>                                                 -> ok        (adds the model's error tag to outputs)
 -/
@@ -350,7 +350,12 @@ def step (st : St) (line : String) : St × String :=
         let l := match r.1.clients.get client with
           | some cl => toString cl.latest.rev.toNat ++ "-" ++ toString cl.latest.h.toNat
           | none => "none"
-        (putChain st r.1, resStr st env c now m r.2 ++ " L=" ++ l)
+        -- the stored client state after the update: the verifier later steps will use (TSS: its address; light client:
+        -- the root held at the header height)
+        let v := match r.1.clients.get client with
+          | some cl => if cl.kind = .tss then hex cl.tssAddr else (match cl.cons.get ⟨rev, h⟩ with | some rt => hex rt | none => "none")
+          | none => "none"
+        (putChain st r.1, resStr st env c now m r.2 ++ " L=" ++ l ++ " V=" ++ v)
       | none => (st, bad)
     | _, _, _, _, _, _, _ => (st, bad)
   | ["dump", chain] =>
